@@ -221,22 +221,33 @@ PCT_LAYOUTS = {
     "C": (((20, 2), (60, 2)), ((60, 2), (30, 2)), ((1, 2), (2, 2), (3, 2), (4, 2)), (1, 0), None),
     "S": (((30, 2), (5, 2)), None, None, (2, None), None),
     "S2": (((45, 2), (45, 2)), ((40, 2), (12.5, 2)), None, None, None),
+    # exactly the DFXP default region (alignment start / after only): resolves to region "bottom"
+    "D": (None, None, None, (3, 2), None),
+    # an Alignment object with nothing set: a region without attributes, reads back as the defaults too
+    "D0": (None, None, None, (None, None), None),
 }
 
 
 def span_grid():
     """exhaustive: {language layout present/absent} x {caption layout absent / equal to the language's / different}
-    x {span with own layout / without} x nesting depth 1-2 (inner span with / without own layout) x styled / unstyled
+    x {span without own layout / with its own / with exactly the DFXP default (alignment start/after only) / with an
+    empty Alignment / equal to the caption's} x nesting depth 1-2 (inner span with / without own layout) x styled / unstyled
     span; text inside and outside the span(s)."""
     out = []
     for lang in (None, "L"):
         for cap in (None, "eq", "C"):
             for styled in ("style", "ustyle"):
-                for s1 in (None, "S"):
+                for s1 in (None, "S", "D", "D0", "eqC"):
                     for depth, s2 in ((1, None), (2, None), (2, "S2")):
                         ll = PCT_LAYOUTS["L"] if lang else None
                         cl = None if cap is None else (PCT_LAYOUTS["L"] if cap == "eq" else PCT_LAYOUTS["C"])
-                        a = PCT_LAYOUTS["S"] if s1 else None
+                        if s1 == "eqC":
+                            # node layout equal to the caption's (a separately built, equal Layout object)
+                            if cl is None:
+                                continue
+                            a = cl
+                        else:
+                            a = PCT_LAYOUTS[s1] if s1 else None
                         b = PCT_LAYOUTS["S2"] if s2 else None
                         inner_txt = b if b else a            # reader convention: a text carries the nearest region layout
                         nodes = [["text", "out0", None], ["break", None], [styled, True, a], ["text", "in1", a]]
